@@ -275,15 +275,15 @@ func xmlCarried(v string) string {
 }
 
 type c18Model struct {
-	paras    []*c18Para
-	vars     map[string]string
-	loop     bool
+	paras      []*c18Para
+	vars       map[string]string
+	loop       bool
 	loopCols   []string // cell texts of the loop row without the each markers
 	loopNested []string // cell texts of the 1x2 table nested in cell 1 of the loop row, if any
-	items    []map[string]interface{}
-	hdr      string // header text pattern (with placeholder) or ""
-	hdrSplit bool
-	image    bool
+	items      []map[string]interface{}
+	hdr        string // header text pattern (with placeholder) or ""
+	hdrSplit   bool
+	image      bool
 }
 
 func c18LoopLit(r *rng.R) string {
@@ -675,25 +675,25 @@ func c18Case(c *core.Ctx) *core.Result {
 			res.Count("loop_tables_compared", 1)
 			var want [][]string
 			want = append(want, bt[0])
-				subst := func(txt string, it map[string]interface{}) string {
-					return regexp.MustCompile(`\{\{(\w+)\}\}`).ReplaceAllStringFunc(txt, func(mm string) string {
-						if v, ok := it[mm[2:len(mm)-2]]; ok {
-							return xmlCarried(fmt.Sprint(v))
-						}
-						return mm // a field the item does not have: the placeholder stays visible
-					})
-				}
-				for _, it := range m.items {
-					var row []string
-					for cidx, txt := range m.loopCols {
-						cell := subst(txt, it)
-						if cidx == 1 && m.loopNested != nil {
-							cell += "[[" + subst(m.loopNested[0], it) + "|" + subst(m.loopNested[1], it) + "]]"
-						}
-						row = append(row, cell)
+			subst := func(txt string, it map[string]interface{}) string {
+				return regexp.MustCompile(`\{\{(\w+)\}\}`).ReplaceAllStringFunc(txt, func(mm string) string {
+					if v, ok := it[mm[2:len(mm)-2]]; ok {
+						return xmlCarried(fmt.Sprint(v))
 					}
-					want = append(want, row)
+					return mm // a field the item does not have: the placeholder stays visible
+				})
+			}
+			for _, it := range m.items {
+				var row []string
+				for cidx, txt := range m.loopCols {
+					cell := subst(txt, it)
+					if cidx == 1 && m.loopNested != nil {
+						cell += "[[" + subst(m.loopNested[0], it) + "|" + subst(m.loopNested[1], it) + "]]"
+					}
+					row = append(row, cell)
 				}
+				want = append(want, row)
+			}
 			want = append(want, bt[2:]...)
 			cls := fmt.Sprintf("loop-table/items=%d/rows-after=%d", min2(len(m.items), 2), min2(len(bt)-2, 1))
 			if m.loopNested != nil {
